@@ -197,6 +197,68 @@ Proof.
   cbn in X. destruct X as (_ & v & H1 & H2). exists v. split; assumption.
 Qed.
 
+(* ================================================================== the gate while copying *)
+(* While the binary backup copies the main file it holds the gate — for every schedule, whether or not the
+   pre-backup snapshot ran or succeeded (i.e. whatever the WAL held at the start) — so a checkpoint attempted
+   in that window is refused and leaves the file alone. *)
+Theorem gate_held_during_copy snap_ok chunks sched w0 w j :
+  run (bin_step true snap_ok chunks) sched (w0, BSnap) = (w, BCopy j) ->
+  checkpoint_refused w = true /\ env_step ECheckpoint w = w.
+Proof.
+  intros Hrun.
+  set (Inv := fun s : world * bphase => match snd s with BCopy _ => gate (fst s) = true | _ => True end).
+  assert (X : Inv (w, BCopy j)).
+  { rewrite <- Hrun. apply run_inv.
+    - intros [w1 ph] H. unfold Inv in *. destruct ph as [| |[|i]|]; cbn [bin_step snd fst] in *.
+      + exact Logic.I.
+      + reflexivity.
+      + exact Logic.I.
+      + exact H.
+      + exact H.
+    - intros e [w1 ph] H. unfold Inv in *. cbn [fst snd] in *. destruct ph; try exact Logic.I.
+      destruct e; cbn [env_step]; [exact H | rewrite H; exact H | exact H].
+    - exact Logic.I. }
+  unfold Inv in X. cbn [fst snd] in X. unfold checkpoint_refused. split; [exact X|].
+  cbn [env_step]. rewrite X. reflexivity.
+Qed.
+
+(* the other formats never take the gate: a checkpoint attempted while they run is not refused by them *)
+Theorem dump_never_holds_gate in_tx tables sched w0 w ph :
+  gate w0 = false -> run (dump_step in_tx tables) sched (w0, DBegin) = (w, ph) -> checkpoint_refused w = false.
+Proof.
+  intros Hg Hrun. set (I := fun s : world * dphase => gate (fst s) = false).
+  assert (X : I (w, ph)).
+  { rewrite <- Hrun. apply run_inv.
+    - intros [w1 p]. unfold I. cbn [fst]. destruct p as [|[|i]|]; cbn [dump_step fst]; intros H;
+        destruct in_tx; destruct (snap w1) as [[v|]|]; sw; exact H.
+    - intros e [w1 p]. unfold I. cbn [fst snd]. destruct e; cbn [env_step]; intros H; sw; try exact H.
+      rewrite H. sw. first [exact H | reflexivity].
+    - exact Hg. }
+  exact X.
+Qed.
+
+Theorem online_never_holds_gate sched w0 w ph :
+  gate w0 = false -> run online_step sched (w0, OStep) = (w, ph) -> checkpoint_refused w = false.
+Proof.
+  intros Hg Hrun. set (I := fun s : world * ophase => gate (fst s) = false).
+  assert (X : I (w, ph)).
+  { rewrite <- Hrun. apply run_inv.
+    - intros [w1 p]. unfold I. cbn [fst]. destruct p; cbn [online_step fst]; intros H; sw; exact H.
+    - intros e [w1 p]. unfold I. cbn [fst snd]. destruct e; cbn [env_step]; intros H; sw; try exact H.
+      rewrite H. sw. first [exact H | reflexivity].
+    - exact Hg. }
+  exact X.
+Qed.
+
+(* the schedule the tie forces: first chunk, commit, snapshot attempt, remaining chunks *)
+Example stalled_consumer_ex :
+  let w0 := {| k := 5; m := 5; gate := false; snap := None; out := [] |} in
+  (* WAL empty at the start (no pre-backup snapshot): the file stays at version 5 *)
+  out (fst (run (bin_step true false 3) [EStep; EStep; EStep; ECommit; ECheckpoint; EStep; EStep; EStep] (w0, BSnap))) = [5; 5; 5]
+  (* a backup that takes the gate only when the WAL was not empty mixes versions on that schedule *)
+  /\ out (fst (run (bin_step false false 3) [EStep; EStep; EStep; ECommit; ECheckpoint; EStep; EStep; EStep] (w0, BSnap))) = [5; 6; 6].
+Proof. vm_compute. split; reflexivity. Qed.
+
 (* the judgement the tie applies to a loaded backup is the property *)
 Theorem obs_ok_spec lo w n v :
   out w = repeat v n -> n <> O -> (obs_ok lo (k w) (out w) = true <-> lo <= v <= k w).
